@@ -99,6 +99,7 @@ def tigerxml_build_tree(s_element, **params):
 def tigerxml(in_file, _, **params):
     """Read trees from TIGER XML. The encoding argument is ignored here.
     """
+    in_file = misc.gunzip(in_file)
     digits = re.compile(r'\d+')
     with io.open(in_file, mode='rb') as stream:
         if not 'quiet' in params:
